@@ -8,6 +8,7 @@ CONSTANTS
   Kinds = {"asg", "del", "read", "cread", "wal", "cex", "comp", "mr", "raise", "ret", "brk", "cnt", "if", "while", "for", "with", "match", "try", "dead"}
   HSh <- HShAll
   AsVars = TRUE
+  Pre <- PreNone
   MaxWord = 6
   Dump = TRUE
 INVARIANT GenWellFormed
